@@ -172,24 +172,51 @@ class SegStr:
             pos += len(s)
         return -1
 
-    def rfind(self, needle):
-        """position of the last occurrence of a literal needle; None when a user-text field that may contain
-        the needle follows the last literal occurrence"""
+    def rfind(self, needle, lo=0, hi=None):
+        """position of the last occurrence of a literal needle inside [lo, hi); None when a user-text field that may
+        contain the needle follows the last literal occurrence (inside that window)"""
         pos = 0
         best = -1
         text_after = False
         for s in self.segs:
+            a, b = pos, pos + len(s)
+            pos = b
+            if (hi is not None and a >= hi) or b <= lo and b != a:
+                continue
             if s.kind == 'lit':
-                idx = s.text.rfind(needle)
-                if idx >= 0:
-                    best = pos + idx
-                    text_after = False
+                w_lo = max(lo - a, 0)
+                w_hi = len(s.text) if hi is None else min(hi - a, len(s.text))
+                if w_hi - w_lo >= len(needle):
+                    idx = s.text.rfind(needle, w_lo, w_hi)
+                    if idx >= 0:
+                        best = a + idx
+                        text_after = False
             elif s.cls == 'text':
                 text_after = True
-            pos += len(s)
         if text_after:
             return None
         return best
+
+    def find_in(self, needle, lo, hi):
+        """first occurrence of a literal needle inside [lo, hi) (as find(), with an end)"""
+        pos = 0
+        for s in self.segs:
+            a, b = pos, pos + len(s)
+            pos = b
+            if a >= hi:
+                break
+            if b <= lo:
+                continue
+            if s.kind == 'lit':
+                w_lo = max(lo - a, 0)
+                w_hi = min(hi - a, len(s.text))
+                if w_hi - w_lo >= len(needle):
+                    idx = s.text.find(needle, w_lo, w_hi)
+                    if idx >= 0:
+                        return a + idx
+            elif s.cls == 'text' and set(needle) != {' '}:
+                raise Unsupported('find(): user text precedes the first literal occurrence')
+        return -1
 
     def strip(self, mode='strip', chars=None, strict=False, sign=None):
         """``sign``: optional oracle value -> True (not negative) / False (negative) / None for numbers printed with the
@@ -261,7 +288,7 @@ class SegStr:
             if s.kind != 'field':
                 continue
             if s.cls in ('text', 'alpha'):
-                if s.width >= 1:
+                if s.width is None or s.width >= 1:
                     risky = True
             else:
                 # formatted numbers: digits, sign, point, exponent marker, blanks
